@@ -3885,11 +3885,11 @@ impl M2Model {
                 }
 
                 // Calculate the offset in the data section where this texture's definition was written
-                // The texture definitions start at (header.textures.offset - base_data_offset)
-                let base_data_offset = std::mem::size_of::<M2Header>();
-                let def_offset_in_data = (header.textures.offset as usize - base_data_offset)
-                    + (i * texture_def_size)
-                    + 8;
+                // The texture definitions start at (header.textures.offset - header_size):
+                // file offsets count from the start of the on-disk header, whose size depends
+                // on the version and is not the size of the in-memory M2Header struct
+                let def_offset_in_data =
+                    (header.textures.offset as usize - header_size) + (i * texture_def_size) + 8;
 
                 // Update the count and offset for the filename
                 data_section[def_offset_in_data..def_offset_in_data + 4]
